@@ -25,6 +25,11 @@ def check(ctx):
     from . import c07 as _c07, c11 as _c11
     _c07.fast_records_auto_taken(ctx)
     _c11.existence_patterns(ctx)
+    # the corrected vector is a fixed point only if what the connection encoders hand back is what they decoded: the
+    # imputer memo is keyed by the whole existence pattern, the vector returned with a matrix is the decoded one
+    from . import c10 as _c10
+    _c10.imputer_memo(ctx)
+    vectors.check_decode_pair(ctx)
     # two different vectors never denote one architecture: the instance caches are keyed completely
     fns, _ = decode.decode_slice(ctx)
     ps = persist.Persist(ctx, [ctx.fn(f'{GP}.get_graph')], fns)
